@@ -671,6 +671,10 @@ func (c *coll) validActions(acts []string) bool {
 			if _, ok := c.kinds[f[1]]; !ok && !containsStr(c.indexes, f[1]) {
 				return false
 			}
+		case f[0] == "visit" && len(f) == 2:
+			if _, err := strconv.ParseUint(f[1], 10, 32); err != nil {
+				return false
+			}
 		default:
 			return false
 		}
@@ -710,6 +714,10 @@ func (c *coll) runActions(txn *column.Txn, r column.Row, acts []string) (string,
 			} else {
 				outs = append(outs, "set")
 			}
+		case f[0] == "visit" && len(f) == 2:
+			// the callback looks at another row (nested point read): the transaction's cursor moves there
+			off, _ := strconv.ParseUint(f[1], 10, 32)
+			txn.QueryAt(uint32(off), func(column.Row) error { return nil })
 		case f[0] == "get" && len(f) == 2:
 			if kind, ok := c.kinds[f[1]]; ok {
 				v, has := readTyped(r, f[1], kind)
